@@ -35,14 +35,18 @@
 (*        record itself is, "insec" nothing is; tlsaC is the outcome of   *)
 (*        the lookup under the canonical name.  EffTLSA is the discovery  *)
 (*        rule of RFC 7672 section 2.2.2.                                  *)
-(* msg  = [reqtls, tlsno, quar : BOOLEAN]                                 *)
+(* msg  = [reqtls, tlsno, quar, mailfail, qlate, na : BOOLEAN]            *)
 (* conn = [mx : index, tls : "none"|"enc-unauth"|"enc-auth", cert]        *)
 (*        "enc-auth": handshake completed on a certificate that is valid  *)
 (*        for the MX name under the trusted CA (PKIX).                    *)
 (***************************************************************************)
 EXTENDS Naturals, Sequences, FiniteSets
 
-NoMsg == [reqtls |-> FALSE, tlsno |-> FALSE, quar |-> FALSE]
+(* mailfail: the MX refuses MAIL FROM of this message (4xx) while the session stays   *)
+(* healthy; qlate: the quarantine flag is raised between AddRcpt and the body call   *)
+(* (a body-stage check of the pipeline); na: the body is handed over through         *)
+(* PartialDelivery.BodyNonAtomic instead of Body                                      *)
+NoMsg == [reqtls |-> FALSE, tlsno |-> FALSE, quar |-> FALSE, mailfail |-> FALSE, qlate |-> FALSE, na |-> FALSE]
 
 (* policies in force for a message: void only under TLS-Required: No with *)
 (* the override enabled                                                    *)
@@ -107,6 +111,9 @@ ObsInit == [msg |-> NoMsg, n |-> 0, viol |-> {}]
 V(o, c, name) == IF c THEN o ELSE [o EXCEPT !.viol = @ \cup {[p |-> name, m |-> o.n]}]
 
 ObsMsg(o, m) == [o EXCEPT !.msg = m, !.n = @ + 1]
+
+(* the message in delivery has been quarantined *)
+ObsQuar(o) == [o EXCEPT !.msg.quar = TRUE]
 
 (* message content arrived at an MX over a connection with facts f *)
 ObsData(o, cfg, f) ==
